@@ -12,13 +12,14 @@ import (
 	authtypes "github.com/cosmos/cosmos-sdk/x/auth/types"
 )
 
-// vNum: the numeric value of a hex report value (the definition used by every reference below).
-func vNum(s string) math.Int {
+// vNum: the numeric value of a hex report value (the definition used by every reference below); a LegacyDec
+// because math.Int ends at 256 bits and report values do not.
+func vNum(s string) math.LegacyDec {
 	v, ok := new(big.Int).SetString(s, 16)
 	if !ok {
 		panic("verif: harness value is not hex")
 	}
-	return math.NewIntFromBigInt(v)
+	return math.LegacyNewDecFromBigInt(v)
 }
 
 // vReports builds n reports with distinct symbolic reporters, symbolic hex values and powers in [1, maxPower].
